@@ -206,7 +206,11 @@ func c28(r *core.Run) {
 			case fl.Swallow != nil:
 				r.Bad("R2.errflow", key, posOf(c), "on the error's non-nil edge a return at "+w.Pos(fl.Swallow.Pos())+" carries nothing derived from the error")
 			default:
-				r.OK("R2.errflow", key, posOf(c), "error reaches "+strings.Join(uniq(fl.Sinks), ","))
+				if ret := returnsBeforeExamined(c); ret != nil {
+					r.Bad("R2.errflow", key, posOf(c), "a return at "+w.Pos(ret.Pos())+" is reachable after the host call before its error is examined (another result is tested first): the failure is ignored on that path")
+				} else {
+					r.OK("R2.errflow", key, posOf(c), "error reaches "+strings.Join(uniq(fl.Sinks), ","))
+				}
 			}
 		}
 	}
@@ -314,7 +318,11 @@ func uniq(xs []string) []string {
 // externalWrapperRule: every method of runtime.ExternalInterface = errors.WrapPanic{Interface.M(params in order)} with
 // interpreter.WrappedExternalError on the non-nil edge before every return (shared by C28.R1 and C01.R7: an unwrapped
 // host error is classified as an internal error).
-func externalWrapperRule(r *core.Run, rule string) {
+func externalWrapperRule(r *core.Run, rule string, only ...string) {
+	onlySet := map[string]bool{}
+	for _, o := range only {
+		onlySet[o] = true
+	}
 	w := r.W
 	// ---- R1 wrapper shape
 	ext := w.Named("runtime", "ExternalInterface")
@@ -326,6 +334,9 @@ func externalWrapperRule(r *core.Run, rule string) {
 	wrappedExt := funcOf(mod+"/interpreter", "WrappedExternalError")
 	for i := 0; i < ext.NumMethods(); i++ {
 		m := ext.Method(i)
+		if len(onlySet) > 0 && !onlySet[m.Name()] {
+			continue
+		}
 		fn := w.Prog.FuncValue(m)
 		key := core.FuncKey(m)
 		if fn == nil || len(fn.Blocks) == 0 {
@@ -450,4 +461,116 @@ func externalWrapperRule(r *core.Run, rule string) {
 		r.Check(good, rule, key, fn.Pos(), "WrapPanic + WrappedExternalError on the non-nil edge before every return", why)
 	}
 
+}
+
+// returnsBeforeExamined: a return that does not carry the error of call c is reachable from c without passing any branch
+// on that error (the error is tested only later, or only on other paths).
+func returnsBeforeExamined(c ssa.CallInstruction) *ssa.Return {
+	errs := core.ErrResults(c)
+	if len(errs) == 0 {
+		return nil
+	}
+	e := errs[0]
+	fn := c.Parent()
+	// values equivalent to the error: itself, loads of cells it is stored into
+	cells := map[ssa.Value]bool{}
+	if refs := e.Referrers(); refs != nil {
+		for _, ref := range *refs {
+			if st, ok := ref.(*ssa.Store); ok && st.Val == e {
+				if _, isLocal := st.Addr.(*ssa.Alloc); isLocal {
+					cells[st.Addr] = true
+				}
+			}
+		}
+	}
+	isErr := func(v ssa.Value, d int) bool { return false }
+	var derives func(v ssa.Value, d int) bool
+	derives = func(v ssa.Value, d int) bool {
+		if v == nil || d > 4 {
+			return false
+		}
+		v = core.Unwrap(v)
+		if v == e {
+			return true
+		}
+		switch x := v.(type) {
+		case *ssa.UnOp:
+			if cells[x.X] {
+				return true
+			}
+			return derives(x.X, d+1)
+		case *ssa.Phi:
+			for _, ed := range x.Edges {
+				if derives(ed, d+1) {
+					return true
+				}
+			}
+		case *ssa.BinOp:
+			return derives(x.X, d+1) || derives(x.Y, d+1)
+		case *ssa.Call:
+			for _, a := range x.Call.Args {
+				if derives(a, d+1) {
+					return true
+				}
+			}
+		}
+		return false
+	}
+	_ = isErr
+	examined := func(in ssa.Instruction) bool {
+		switch x := in.(type) {
+		case *ssa.If:
+			return derives(x.Cond, 0)
+		case *ssa.Panic:
+			return true
+		case ssa.CallInstruction:
+			// handing the error to a function (handler, wrapper) counts as examining it
+			for _, a := range x.Common().Args {
+				if derives(a, 0) {
+					return true
+				}
+			}
+		case *ssa.Store:
+			// stored into a result cell or structure: carried onwards
+			if derives(x.Val, 0) && !cells[x.Addr] {
+				return true
+			}
+		}
+		return false
+	}
+	target := func(in ssa.Instruction) bool {
+		ret, ok := in.(*ssa.Return)
+		if !ok {
+			return false
+		}
+		for _, res := range ret.Results {
+			if derives(res, 0) {
+				return false
+			}
+		}
+		// only returns after the call
+		return core.ReachableAfter(c, ret)
+	}
+	// start right after the call: scan the rest of its block, then successors
+	blk := c.Block()
+	started := false
+	for _, in := range blk.Instrs {
+		if in == ssa.Instruction(c) {
+			started = true
+			continue
+		}
+		if !started {
+			continue
+		}
+		if examined(in) {
+			return nil
+		}
+		if target(in) {
+			return in.(*ssa.Return)
+		}
+	}
+	if hit := core.ReachUnder(fn, nil, blk.Succs, examined, target); hit != nil {
+		return hit.(*ssa.Return)
+	}
+	return nil
 }
